@@ -123,11 +123,28 @@ ChannelsOK(h, obs, unit) ==
               o == obs[k] * (step \div unit) IN
           o >= plo - step /\ o <= phi + step
 
+(* ---- through a mask (narrow pipeline, OP_SRC: gradient IN mask) ------------------------------ *)
+(* pixman multiplies every channel of the 8-bit gradient pixel g by the mask alpha m with the   *)
+(* rounding MulUn8 (round half up of g*m/255; the Combine rule of C01).  The gradient pixel     *)
+(* itself is only known to lie in the acceptance range of ChannelsOK; MulUn8 is monotone in g   *)
+(* with steps of at most 1, so the observed channel must lie between the images of the range's  *)
+(* end points.  m = 255 gives back ChannelsOK, m = 0 demands 0.                                  *)
+MulUn8(a, b) == LET t == a * b + 128 IN (t + (t \div 256)) \div 256
+CeilDiv(a, b) == -((-a) \div b)
+ChannelsMaskedOK(h, obs, m) ==
+    LET step == 255 * CS * CS
+        lo(k) == IF k = 1 THEN CeilDiv(h[1][1] - CS, CS) ELSE CeilDiv(h[1][1] * h[k][1] - step, step)
+        hi(k) == IF k = 1 THEN (h[1][2] + CS) \div CS ELSE (h[1][2] * h[k][2] + step) \div step
+    IN \A k \in 1..4 : /\ obs[k] >= MulUn8(IvMax(0, lo(k)), m)
+                        /\ obs[k] <= MulUn8(IvMin(255, hi(k)), m)
+
 (* an option is <<"T">> (transparent, exact), <<"t", lo, hi>> (parameter interval) or <<"any">> *)
-OptionOK(opt, stops, mode, obs, unit) ==
+(* m: mask alpha of the pixel (0..255), or -1 when the composite has no mask *)
+OptionOK(opt, stops, mode, obs, unit, m) ==
     CASE opt[1] = "any" -> TRUE
       [] opt[1] = "T"   -> obs = Transparent
-      [] opt[1] = "t"   -> ChannelsOK(ColourHull(stops, mode, opt[2] - TSlack, opt[3] + TSlack), obs, unit)
+      [] opt[1] = "t"   -> LET h == ColourHull(stops, mode, opt[2] - TSlack, opt[3] + TSlack) IN
+                           IF m < 0 THEN ChannelsOK(h, obs, unit) ELSE unit = 1 /\ ChannelsMaskedOK(h, obs, m)
 
 (* ---- geometry: pixel -> point ------------------------------------------------------------- *)
 (* m: 3x3 integer matrix (the 16.16 transform divided by the gcd of its entries; identity if   *)
@@ -247,15 +264,17 @@ ConicalOpts(g, P) ==
        ELSE {<<"t", 0, TS - a1>>, <<"t", 2 * TS - b1, TS>>}
 
 (* ---- one pixel ----------------------------------------------------------------------------- *)
-(* scn: [kind, g, hu, stops, repeat, m, unit]                                                       *)
+(* scn: [kind, g, hu, stops, repeat, m, unit, mask]   mask: rows of alpha values, <<>> for none                                                       *)
 Options(scn, x, y) ==
     LET P == PointOf(scn.m, x, y) IN
     CASE scn.kind = "linear"  -> LinearOpts(scn.g, scn.hu, P, scn.repeat)
       [] scn.kind = "radial"  -> RadialOpts(scn.g, P, scn.repeat)
       [] scn.kind = "conical" -> ConicalOpts(scn.g, P)
 
+MaskAt(scn, x, y) == IF Len(scn.mask) = 0 THEN -1 ELSE scn.mask[y + 1][x + 1]
+
 PixelOK(scn, x, y, obs) ==
-    \E opt \in Options(scn, x, y) : OptionOK(opt, scn.stops, scn.repeat, obs, scn.unit)
+    \E opt \in Options(scn, x, y) : OptionOK(opt, scn.stops, scn.repeat, obs, scn.unit, MaskAt(scn, x, y))
 
 NoObligation(scn, x, y) == Options(scn, x, y) = {<<"any">>}
 
